@@ -24,29 +24,30 @@ var runSerial atomic.Uint64
 // Run is one crash experiment.
 type Run struct {
 	Writer      WriterArgs
-	Strace      int // if > 0: kill at the N-th pwrite64 (strace injection) instead of a hook point
-	ExtKill     int // if > 0: external SIGKILL this many ms after the writer went idle
-	DelayReopen int // ms to wait before the bucket is reopened (lets a deadline pass while the bucket is closed)
+	Strace      int  // if > 0: kill at the N-th pwrite64 (strace injection) instead of a hook point
+	ExtKill     int  // if > 0: external SIGKILL this many ms after the writer went idle
+	DelayReopen int  // ms to wait before the bucket is reopened (lets a deadline pass while the bucket is closed)
 	LockedOpen  bool // before the real reopen, another process tries to open the bucket while its file is write-locked
 	Reader      ReaderArgs
 	Tmp         string
 }
 
 type Outcome struct {
-	Opened    bool      `json:"opened"`
-	UUID      string    `json:"uuid"`
-	Acks      int       `json:"acks"`
-	InFlight  *kv.Op    `json:"inFlight,omitempty"`
-	InFlightI int       `json:"inFlightI"`
-	Applied   string    `json:"applied"` // "n/a", "applied", "not-applied"
-	Killed    bool      `json:"killed"`
-	LockedOpenErr string `json:"lockedOpenErr,omitempty"` // how the open attempted while the file was locked failed
-	Clean     bool      `json:"clean"`
-	MaxAckCas uint64    `json:"maxAckCas"`
-	Reader    ReaderOut `json:"reader"`
-	Problems  []string  `json:"problems"`
-	WriterErr string    `json:"writerErr,omitempty"`
-	KillDesc  string    `json:"killDesc"`
+	Opened                         bool      `json:"opened"`
+	UUID                           string    `json:"uuid"`
+	Acks                           int       `json:"acks"`
+	InFlight                       *kv.Op    `json:"inFlight,omitempty"`
+	InFlightI                      int       `json:"inFlightI"`
+	Applied                        string    `json:"applied"` // "n/a", "applied", "not-applied"
+	Killed                         bool      `json:"killed"`
+	OpenedAfterInterruptedCreation bool      `json:"openedAfterInterruptedCreation,omitempty"`
+	LockedOpenErr                  string    `json:"lockedOpenErr,omitempty"` // how the open attempted while the file was locked failed
+	Clean                          bool      `json:"clean"`
+	MaxAckCas                      uint64    `json:"maxAckCas"`
+	Reader                         ReaderOut `json:"reader"`
+	Problems                       []string  `json:"problems"`
+	WriterErr                      string    `json:"writerErr,omitempty"`
+	KillDesc                       string    `json:"killDesc"`
 }
 
 type lastState struct {
@@ -188,7 +189,22 @@ func (r *Run) Execute() Outcome {
 		if len(out.WriterErr) > 300 {
 			out.WriterErr = out.WriterErr[:300]
 		}
-		return out // killed before the bucket was reported open: outside the statement
+		// killed before the bucket was reported open: whether that bucket exists is outside the statement. But if a
+		// later open accepts what the interrupted creation left behind, it must be a whole bucket (UUID, a default
+		// collection that takes a write); an open that refuses the remains is fine.
+		probe := ReaderArgs{Dir: dir, Name: name, Mode: 0, NewWrites: 1, Colls: 1}
+		pj, _ := json.Marshal(probe)
+		if pout, perr := exec.Command(exe, "crashreader", string(pj)).Output(); perr == nil {
+			var pr ReaderOut
+			lines := strings.Split(strings.TrimSpace(string(pout)), "\n")
+			if json.Unmarshal([]byte(lines[len(lines)-1]), &pr) == nil && pr.Err == "" {
+				out.OpenedAfterInterruptedCreation = true
+				if pr.UUID == "" || len(pr.NewCas) != 1 || len(pr.Colls) == 0 {
+					out.Problems = append(out.Problems, fmt.Sprintf("half-created|the writer was killed while it was still creating the bucket; a later OpenBucket accepted the remains as an existing bucket, but it is not a whole one: UUID %q, collections %v, %d of 1 writes accepted", pr.UUID, pr.Colls, len(pr.NewCas)))
+				}
+			}
+		}
+		return out
 	}
 	out.Acks = len(acked)
 	out.InFlightI = -1
